@@ -537,6 +537,9 @@ func TestCheck(t *testing.T) {
 			jobs = append(jobs, job{config{0, tickIv, 1, 0, ns}, 3, path{evTick, evRevert}})
 		}
 	}
+	var winQueries int64
+	winDone := make(chan struct{})
+	go func() { defer close(winDone); winQueries = runWindows(r) }()
 	xs := make([]*explorer, len(jobs))
 	ev.Par(len(jobs), len(jobs), func(i int) {
 		x := &explorer{r: r, t: t, cfg: jobs[i].cfg, base: bases[jobs[i].cfg.NewState], depth: jobs[i].depth, prefix: jobs[i].prefix}
@@ -547,6 +550,7 @@ func TestCheck(t *testing.T) {
 			"replays": x.replays.Load(), "prune_transitions": x.pruneTransitions.Load(), "multi_batch_prunes_interrupted": x.multiBatchPrunes.Load(),
 			"crash_points": x.crashCases.Load(), "cancel_points": x.cancelCases.Load(), "seconds": int(time.Since(t0).Seconds())})
 	})
+	<-winDone
 	var tot explorer
 	for _, x := range xs {
 		tot.states.Add(x.states.Load())
@@ -591,14 +595,17 @@ func TestCheck(t *testing.T) {
 	r.Set("questions_compared_with_twin", tot.questions.Load())
 	r.Set("below_floor_refused", tot.belowErr.Load())
 	r.Set("below_floor_answered_completely", tot.belowSame.Load())
-	r.Set("evaluations", tot.liveCases.Load()+tot.restartCases.Load()+tot.midCases.Load()+tot.crashCases.Load()+tot.cancelCases.Load())
+	r.Set("evaluations", tot.liveCases.Load()+tot.restartCases.Load()+tot.midCases.Load()+tot.crashCases.Load()+tot.cancelCases.Load()+winQueries)
 	r.Set("distinct_nontrivial", tot.states.Load())
 	r.Set("rule", fmt.Sprintf("per configuration (retained x min-age x heads/prune x batch threshold x state backend): BFS over ALL sequences of <= %d events from "+
 		"{store next block, L1 head := head-2 | head | head+3, floor tick (+5 min), revert head down to the floor, catch-up store} on a %d-block base chain, "+
 		"driving the real pruner.Run loop in a synctest bubble; sequences are merged when (KV image, pruner counters, published floor, clock, allowed floor) coincide. "+
 		"Every transition: floor <= oracle formula, no pruner error, store/revert succeed. Every distinct state: whole Reader surface vs an unpruned twin "+
 		"(>= floor identical, < floor error-or-identical), reopen + store next + revert to floor vs twin, and for the prune of the incoming transition a crash "+
-		"(reopen on the image) and a context cancel after EVERY batch commit, each followed by a resumed prune that must reach the uninterrupted image.", depth, baseLen))
+		"(reopen on the image) and a context cancel after EVERY batch commit, each followed by a resumed prune that must reach the uninterrupted image. "+
+		"Part W (windows_test.go): on a %d-block chain (two completed bloom-filter windows + 6 blocks) every floor of a list covering each position relative to the window "+
+		"boundaries x both backends: PruneUpto, reopen, event queries from the floor / the boundaries / the head vs the unpruned twin, revert across the last window boundary "+
+		"(to the floor for one floor per backend in the thorough tier), extend by 3 blocks, queries again.", depth, baseLen, longLen))
 	r.Assume = append(r.Assume,
 		"events are delivered one at a time at quiescence (no preemption inside a prune other than cancel/crash at batch commits)",
 		"a batch commit is atomic (C15)", "the unpruned twin is a correct reference (C03/C04)",
